@@ -62,4 +62,15 @@ where
             idle,
         })
     }
+
+    /// Run `f` while holding the pool's mutex (as another thread using the pool would), or return
+    /// `None` if this service has no pool. The pool's state is not touched.
+    pub fn verif_with_lock<F, R>(&self, f: F) -> Option<R>
+    where
+        F: FnOnce() -> R,
+    {
+        let pool = self.pool.as_ref()?;
+        let _inner = pool.inner.lock();
+        Some(f())
+    }
 }
